@@ -701,15 +701,12 @@ func nativeReplays(repo, prop string, ld *symgo.Loaded, results []*harnessResult
 	return nil
 }
 
-// knownLabels: a witness path may legitimately fail an assertion natively if the engine also reported that label violated.
+// knownLabels: a witness path may legitimately fail an assertion natively if the engine also reported that label
+// violated. Only the first native failure is compared: the engine's path ends at its first violated assertion, the
+// native run goes on and may fail later assertions as a consequence.
 func knownLabels(hr *harnessResult, fails []string) bool {
 	vc := hr.X.ViolationCounts()
-	for _, f := range fails {
-		if vc["assert:"+f] == 0 {
-			return false
-		}
-	}
-	return true
+	return len(fails) > 0 && vc["assert:"+fails[0]] > 0
 }
 
 func allHarnessNames(results []*harnessResult, pkg string) []string {
